@@ -889,7 +889,7 @@ def _run_history(case):
                 mid = listing()
                 thb = threading.Thread(target=tb, daemon=True)
                 thb.start()
-                thb.join(8)
+                thb.join(3)
                 blocked = thb.is_alive()
                 after_b = listing()
                 w.gate_resume.set()
@@ -1028,7 +1028,19 @@ def _run_history(case):
 # ----------------------------------------------------------------------------------------------
 def run_monitor_scenario(loads):
     """loads: [(class index, clean_freq)]; every entry constructs a session of that class and calls its
-    real `load()`.  -> (model line, what the real code did in the driver's output format)."""
+    real `load()`.  -> (model line, what the real code did in the driver's output format, [(what, signature)]
+    statement-level problems seen while constructing sessions directly)."""
+    try:
+        return common._with_alarm(HIST_TIMEOUT, lambda: _run_monitor_scenario(loads))
+    except common._Alarm:
+        return None, None, [('constructing / loading sessions directly did not finish in %d s' % HIST_TIMEOUT,
+                             'hang')]
+    except Diverged:
+        return None, None, [('constructing a session kept drawing ids (regeneration loop does not end)',
+                             'regenerate_loop_diverged')]
+
+
+def _run_monitor_scenario(loads):
     import cherrypy
     from cherrypy.lib import sessions
     classes = {0: sessions.RamSession, 1: sessions.FileSession, 2: sessions.MemcachedSession}
@@ -1039,7 +1051,10 @@ def run_monitor_scenario(loads):
     plugins.Monitor = _FakeMonitor
     saved = (sessions.datetime, sessions.time, sessions.os)
     sessions.datetime, sessions.time, sessions.os = _DatetimeShim(), _TimeShim(), _OsShim()
+    real_generate_id = sessions.Session.generate_id
+    sessions.Session.generate_id = lambda self: w.generate_id(self, real_generate_id)
     tmp = tempfile.mkdtemp(prefix='c14m-')
+    problems = []
 
     def reset():
         for c in classes.values():
@@ -1058,9 +1073,10 @@ def run_monitor_scenario(loads):
                 kw['debug'] = True
             if cls == 1:
                 kw['storage_path'] = tmp
+            w.req_draws = 0
             inst = classes[cls](None if n % 3 else 'f' * 40, **kw)
-            if n % 3 == 0 and not (inst.missing and inst.id != 'f' * 40 and inst.originalid == 'f' * 40):
-                raise common.HarnessError('direct construction with an unknown id')   # covered by the histories
+            if n % 3 == 0 and inst.id == 'f' * 40:
+                problems.append(('%s(id) adopted an id its store does not hold' % type(inst).__name__, 'fixation'))
             inst.acquire_lock()
             try:
                 inst.load()
@@ -1068,8 +1084,9 @@ def run_monitor_scenario(loads):
                     inst.save()
                     inst.acquire_lock()
                     again = classes[cls](inst.id, **kw)       # a live id, constructed directly
-                    if again.id != inst.id or again.missing:
-                        raise common.HarnessError('direct construction with a live id')
+                    if again.id != inst.id:
+                        problems.append(('%s(id) did not adopt the id of a session saved a moment ago'
+                                         % type(inst).__name__, 'live_data_lost'))
             finally:
                 if inst.locked:
                     inst.release_lock()
@@ -1079,9 +1096,10 @@ def run_monitor_scenario(loads):
             per.setdefault(c, []).append(m.frequency)
         started = sum(1 for m in w.monitors if m.started and m.subscribed)
         real = '%d;%s' % (started, ','.join('%d:%s' % (c, '/'.join(str(x) for x in per[c])) for c in sorted(per)))
-        return 'mon ' + (','.join('%d.%d' % (c, f) for c, f in loads) or '-'), real
+        return 'mon ' + (','.join('%d.%d' % (c, f) for c, f in loads) or '-'), real, problems
     finally:
         sessions.datetime, sessions.time, sessions.os = saved
+        sessions.Session.generate_id = real_generate_id
         plugins.Monitor = saved_monitor
         try:
             reset()
